@@ -96,6 +96,10 @@ func nextPacket(r io.Reader) (*parser.Packet, error) {
 			expectedLen = int(l)
 			state = ReadPayload
 		case ReadPayload:
+			// Enforce the read limit on the declared length, before anything is allocated for it.
+			if lr, ok := r.(*limitedReader); ok && lr.limit > 0 && int64(expectedLen) > lr.limit {
+				return nil, ErrLimitReached
+			}
 			return parser.DecodeWithLen(r, isBinary, expectedLen)
 		}
 	}
